@@ -84,12 +84,18 @@ func (b *Blockstore) Has(ctx context.Context, cid cid.Cid) (bool, error) {
 	return has, nil
 }
 
+// errReadOnly is returned on attempts to write into the Blockstore.
+// The Blockstore is a read-only view over the EDS store.
+var errReadOnly = errors.New("shwap/bitswap: blockstore is read-only")
+
 func (b *Blockstore) Put(context.Context, blocks.Block) error {
-	panic("not implemented")
+	// the Blockstore may be given to the Getter as a store for fetched Blocks (WithStore),
+	// so writing must not panic
+	return errReadOnly
 }
 
 func (b *Blockstore) PutMany(context.Context, []blocks.Block) error {
-	panic("not implemented")
+	return errReadOnly
 }
 
 func (b *Blockstore) DeleteBlock(context.Context, cid.Cid) error {
